@@ -67,9 +67,7 @@ def _main(prop, tier, seed, replay_path):
     t0 = time.monotonic()
     plan = mod.plan(tier)
     try:
-        parts = []
-        for fn, nshards in plan['stages']:
-            parts += common.run_sharded(mod.__name__, fn, nshards, tier, seed, plan.get('timeout_s', 1800))
+        parts = common.run_sharded(mod.__name__, plan['stages'], tier, seed, plan.get('timeout_s', 1800))
     except common.HarnessError as e:
         print('HARNESS-ERROR property=%s %s' % (prop, e))
         return common.EXIT_HARNESS
